@@ -10,7 +10,7 @@ CHECKS = {
          "For every admissible triple with degrees <= 3 (setup; <= 5 in thorough) the kernel certifies generator-invariance, unit norm, vanishing imaginary part and the cyclic/transposition symmetries of the exact table, and Lean theorems lift this to invariance under EVERY rotation D(alpha,beta,gamma) and equivariance of the contraction for all inputs. The table is tied to the code by comparing every entry of every triple up to l=11 (1e-14) each run; the copy-on-return clause by seeded call/mutate/build histories.",
          "Trusted: Lean kernel, Mathlib, torch.matrix_exp = exp, float rounding of the tables (<=1e-14 measured per run). Beyond the kernel range the same exact decision procedure is run by the Lean interpreter (evidence only). Uniqueness of the invariant tensor is mathematics independent of the code.", "6 C04"),
  "C05": ("proof", "A", "translator (Python AST -> Lean straight-line program, regenerated every run) + symbolic execution in the kernel + Lean theorems over R (soundness of symbolic execution, recurrence induction using the Clebsch-Gordan certificates)",
-         "The source text of _spherical_harmonics is translated on every run; the kernel re-decides homogeneity, the Unsoeld identity, harmonicity and the CG recurrence for the regenerated polynomials (degrees <= 8 at setup/quick, <= 11 thorough) and Lean theorems give: equivariance under every rotation, homogeneity, parity and the three norms for ALL real x. The angular form: a second translator (T5, FX graph of o3.Legendre -> exact table) and kernel certificates per degree give, for ALL angles (also beta outside [0, pi]), spherical_harmonics_alpha_beta = spherical_harmonics o angles_to_xyz in the three normalisations (Props/C11Ang.lean, l <= 8; <= 11 thorough); the Float instance of that model runs next to the real function. Block selection, normalize flag, x=0, module/functional/scripted are checked on the real code.",
+         "The source text of _spherical_harmonics is translated on every run; the kernel re-decides homogeneity, the Unsoeld identity, harmonicity and the CG recurrence for the regenerated polynomials (degrees <= 8 at setup/quick, <= 11 thorough) and Lean theorems give: equivariance under every rotation, homogeneity, parity and the three norms for ALL real x. The angular form: a second translator (T5, FX graph of o3.Legendre -> exact table) and kernel certificates per degree give, for ALL angles (also beta outside [0, pi]), spherical_harmonics_alpha_beta = spherical_harmonics o angles_to_xyz in the three normalisations (Props/C11Ang.lean, l <= 8; <= 11 thorough); the Float instance of that model runs next to the real function; further kernel certificates (Cert/Leg/Std) show that the Legendre table is, coefficient by coefficient, the documented formula sqrt((2l+1)/(4 pi)(l-m)!/(l+m)!) y^m 1/(2^l l!) d^(l+m)/dz^(l+m)(z^2-1)^l (tied to Mathlib's iteratedDeriv), so the harmonics of the source ARE the standard real spherical harmonics with y as polar axis (Props/C05Std.lean: sh_is_standard_real_sh). Block selection, normalize flag, x=0, module/functional/scripted are checked on the real code.",
          "Trusted: the syntactic translator (validated numerically at rational points each run), Lean kernel, Mathlib. Degrees 9..12 in the quick tier: exact decision procedures run by the interpreter (evidence). Translator T5 and its lifting of float coefficients are trusted (validated against the running o3.Legendre each run). TorchScript: numeric comparison only.", "6 C05"),
  "C06": ("proof", "B", "Lean 4 model of Irrep/Irreps with theorems by induction for all values + exact line-protocol correspondence (exhaustive small scope + seeded large + malformed strings)",
          "39 theorems for all Irreps values (parse/print round trip, bookkeeping identities, simplify/sort/regroup preserve the block list up to the reported permutation, triangle rule) and exact differential comparison of every operation with the real classes.",
